@@ -30,6 +30,20 @@ function gen1(rng, params, mode) {
     const d2 = genDisc(rng, 1, names, { key: d1[2], tags: d1[3].map((m) => m[0]) });
     rts.splice(0, rts.length >= 2 ? 2 : rts.length, d1, d2);
   }
+  // a discriminated union with inline variants on a cycle through two named types (`Tree = { node: Node }`,
+  // `Node = { kind: "branch"; children: Tree[] } | { kind: "leaf" }`), reached from either end
+  if (multi && rng.chance(1, 5)) {
+    const tn = "Tree" + names.length, nn = "Node" + names.length;
+    const branch = [A("object"), [["kind", [A("const"), [A("s"), "branch"]]], ["children", [A("array"), [A("ref"), tn]]]], []];
+    const leaf = [A("object"), [["kind", [A("const"), [A("s"), "leaf"]]], ["value", [A("typeof"), "number"]]], []];
+    const mapping = [["branch", branch], ["leaf", leaf]];
+    env.push([tn, [A("object"), [["label", [A("typeof"), "string"]], ["node", [A("ref"), nn]]], []]]);
+    env.push([nn, [A("disc"), [branch, leaf], "kind", mapping, mapping]]);
+    names.push(tn, nn);
+    const both = [[A("ref"), tn], [A("ref"), nn]];
+    if (rng.chance(1, 2)) both.reverse();
+    rts.splice(0, Math.min(2, rts.length), ...both);
+  }
   // variants of a discriminated union that are NAMED types (what the compiler emits for `A | B` over declared object
   // types): their definitions are stored under the type's own name, and an override may target them
   if (multi && rng.chance(1, 2)) {
